@@ -88,6 +88,10 @@ func (c *declChecker) check() []error {
 			if len(descrAtom.Args) != len(p.Args) {
 				c.errs = append(c.errs, fmt.Errorf("mode %v must have one entry per argument of %v", descrAtom, p))
 			}
+		case ast.DescrReflects:
+			if len(p.Args) != 1 {
+				c.errs = append(c.errs, fmt.Errorf("a predicate that reflects a name prefix takes exactly one argument, got %v", p))
+			}
 		default:
 			// We ignore unknown descr atoms.
 		}
